@@ -82,6 +82,8 @@ CHECK_DEADLOCK FALSE
 
 SYS_RENAME = {'SWrite': 'Write', 'SReceive': 'Receive', 'SObserveJoin': 'ObserveJoin', 'SCut': 'Cut', 'SHeal': 'Heal', 'SDrop': 'Drop',
               'SRestart': 'Restart', 'SFinalize': 'Finalize'}
+SYS_RENAME.update({'H' + k[1:]: v for k, v in list(SYS_RENAME.items())})
+SYS_RENAME['HReplicate'] = 'Replicate'
 
 
 def c02(prop, tier):
@@ -107,8 +109,9 @@ def c02(prop, tier):
             b['reps'] = reps
         bs += sims
     # directed behaviours: shortest behaviours reaching a situation in which one particular mechanism has to deliver an entry
-    for trap, reps in (('NoTrap1', ['a', 'b']), ('NoTrap2', ['a', 'b', 'c']), ('NoTrap3', ['a', 'b'])):
-        t = vlib.tlc_check('SimSystem.tla', sys_cfg('SimSpec', reps, 3, 3, invs=trap), 'C02-' + trap, timeout=600)
+    for trap, reps in (('NoTrap1', ['a', 'b']), ('NoTrap2', ['a', 'b', 'c']), ('NoTrap3', ['a', 'b']), ('NoTrap4', ['a', 'b']), ('NoTrap5', ['a', 'b'])):
+        hist = trap in ('NoTrap4', 'NoTrap5')
+        t = vlib.tlc_check('SimSystemH.tla' if hist else 'SimSystem.tla', sys_cfg('HSpec' if hist else 'SimSpec', reps, 3 if not hist else 2, 3, invs=trap), 'C02-' + trap, timeout=600)
         ck.add_tlc(t, 'trap property %s (witness behaviour wanted)' % trap)
         if t.get('violated') == trap and t.get('trace'):
             for st in t['trace']:
